@@ -371,9 +371,9 @@ Definition judge (c o : sexp) : verdict :=
       match get "start" o with
       | None => VBad "no start in observation"
       | Some s0 =>
-        (* the tree built by the harness is the tree of the case *)
+        (* the empty history: the tree built by the harness is the tree of the case, and the
+           oracle holds of it (enumerations, text) *)
         match check_state "start: " false t s0 with
-        | inl (VOracle m) => VBad ("harness: the starting tree fails the checks: " ++ m)
         | inl v => v
         | inr b => walk o 0 t [] (b2n b) 1 ops steps
         end
